@@ -41,7 +41,7 @@ func init() {
 				return 150_000
 			}, Run: c15Gradient,
 				Min: map[string]int64{"gradients": 20000, "probes": 1000000, "exact_integer_offsets": 2000, "exact_odd_integer_reflect": 100, "exact_stop_offsets": 1000, "negative_offsets": 50000, "offsets_above_1": 50000, "offsets_inside_0_1": 200000,
-					"spread_none": 10000, "spread_pad": 10000, "spread_reflect": 10000, "spread_repeat": 10000, "radial": 100000, "linear": 100000, "transparent_outside": 1000, "dyadic_gradients": 5000, "far_offset_gradients": 3000, "offsets_beyond_2^63": 5000, "gradients_after_another_gradient": 20000, "same_gradient_after_retargeting": 20000, "gradient_after_an_unpainted_path": 20000}},
+					"spread_none": 10000, "spread_pad": 10000, "spread_reflect": 10000, "spread_repeat": 10000, "radial": 100000, "linear": 100000, "transparent_outside": 1000, "dyadic_gradients": 5000, "far_offset_gradients": 3000, "offsets_beyond_2^63": 5000, "offsets_a_hair_outside_0_1": 5000, "gradients_after_another_gradient": 20000, "same_gradient_after_retargeting": 20000, "gradient_after_an_unpainted_path": 20000}},
 			{Name: "pixels", N: func(t string) uint64 {
 				if t == "thorough" {
 					return 1_000_000
@@ -203,6 +203,8 @@ type c15Grad struct {
 	offs   []float32
 	dyadic bool
 	far    bool
+	// hairline: offsets within 2^-20 of 0 or 1 without being 0 or 1
+	hairline bool
 }
 
 func c15Gen(r *run.Rng, small bool) *c15Grad {
@@ -272,7 +274,17 @@ func c15Gen(r *run.Rng, small bool) *c15Grad {
 		q.m[2] = float32(r.Uniform(-3, 3) - float64(q.m[0])*cx - float64(q.m[1])*cy)
 		q.m[5] = float32(r.Uniform(-3, 3) - float64(q.m[3])*cx - float64(q.m[4])*cy)
 	}
-	if r.Chance(1, 6) {
+	if q.dyadic && r.Chance(1, 10) {
+		// offsets a hair outside [0,1] (or inside): the gradient varies by 2^-30..2^-45
+		// per pixel around exactly 0 or exactly 1; every term is a power of two, so
+		// the offsets are exact in float64
+		e := r.Range(30, 45)
+		q.m = [6]float32{float32(math.Ldexp(float64(r.Pick(-1, 1)), -e)), 0, float32(r.Intn(2)), 0, 0, 0}
+		if r.Bool() {
+			q.m[0], q.m[1] = 0, q.m[0]
+		}
+		q.hairline = true
+	} else if r.Chance(1, 6) {
 		// offsets far outside [0,1]: hundreds to millions of periods away
 		q.far = true
 		// (for exact matrices also beyond 2^53 and beyond 2^63, where every offset
@@ -522,6 +534,9 @@ func c15DrawAndJudge(c *run.Ctx, zp *render.Renderer, rz *rec.Raster, q *c15Grad
 	if q.far {
 		c.Count("far_offset_gradients", 1)
 	}
+	if q.hairline {
+		c.Count("gradients_a_hair_off_0_or_1", 1)
+	}
 	c.Count("spread_"+[]string{"none", "pad", "reflect", "repeat"}[q.g.Spread], 1)
 	var paint *rec.Paint
 	for i := range rz.Calls {
@@ -563,6 +578,9 @@ func c15DrawAndJudge(c *run.Ctx, zp *render.Renderer, rz *rec.Raster, q *c15Grad
 		c.MaxF("largest_offset_magnitude", math.Min(math.Abs(o), 1e300))
 		if math.Abs(o) >= 1<<63 {
 			c.Count("offsets_beyond_2^63", 1)
+		}
+		if (o < 0 && o > -1e-6) || (o > 1 && o < 1+1e-6) {
+			c.Count("offsets_a_hair_outside_0_1", 1)
 		}
 		switch {
 		case o < 0:
